@@ -18,10 +18,16 @@ def jobs(tier):
             for size in sizes:
                 js.append({"scenario": scn, "cfg": {"pre": pre, "prepad": prepad, "size": size, "stall_is_violation": 1, "consume_each": 1},
                            "bound": 1, "deadline": 60})
-        # statements ahead not individually awaited: the amount already consumed is decided by the schedule
+        # statements ahead not individually awaited: the amount already consumed is decided by the schedule;
+        # small backend limits so that a read pass can end on the hard limit exactly when the queue is drained
         for size in (512, 900, 1000, 1024):
             js.append({"scenario": scn, "cfg": {"pre": 2, "prepad": 100, "size": size, "stall_is_violation": 1, "consume_each": 0},
                        "bound": 2, "deadline": 120})
+        for soft, hard, tbuf in ((1, 1, 1), (2, 2, 2), (1, 2, 1)) if not q else ((2, 2, 2), (1, 1, 1)):
+            for pre in (1, 2, 3):
+                for size in (1000, 1024) if q else (512, 900, 1000, 1016, 1024):
+                    js.append({"scenario": scn, "cfg": {"pre": pre, "prepad": 0, "size": size, "stall_is_violation": 1, "consume_each": 0,
+                                                        "soft": soft, "hard": hard, "tbuf": tbuf}, "bound": 1 if q else 2, "deadline": 120})
     return js
 
 
